@@ -107,22 +107,10 @@ def mootsOf (table : List (List Nat)) (k : Nat) : List Nat := (table[k]?).getD [
 
 /-! ### internal errors known to remain reachable from a script
 
-`(finding, exception class, innermost function)`; `HANG` = the build does not return, the function is the loop it was
-interrupted in.  A failing input is attributed to a known finding only if its (class, function) is listed here.  The
-repairs of the four findings below are delivered as patches; the rows go when they are committed. -/
-def knownCrashSites : List (String × String × String) := [
-  -- D70: `parseRelation` recurses once per `of frame` / `of actor`; a thousand of them exhaust the Python stack
-  --      (fixes/D70-relation-nesting-limit.patch)
-  ("D70", "RecursionError", "parseRelation"),
-  -- D65b: an integer literal too large for a float as a period or a timeout (fixes/D65b-number-too-large-for-float.patch)
-  ("D65b", "OverflowError", "buildTimeout"), ("D65b", "OverflowError", "__init__"), ("D65b", "OverflowError", "buildServer"),
-  -- D06b: at console verbosity concise or higher `build` prints the frame hierarchy; `Framer.showHierarchy` follows all
-  --       unders and never ends when an `under` verb names a frame that is not in the current frame and the names lead
-  --       back up (fixes/D06b-showhierarchy-visited.patch)
-  ("D06b", "HANG", "showHierarchy"),
-  -- D71: `Builder.build(mode=…, metas=…, preloads=…, behaviors=…)`: `self.mode.extend[mode]` subscripts the method
-  --      (fixes/D71-build-arguments-extend.patch)
-  ("D71", "TypeError", "build")]
+None: the table is empty (D5, D8, D65, D65b, D66, D67, D68, D69, D69b, D70, D06b, D71 are repaired in the repository), so
+every internal error the search meets is a failing input.  `(finding, exception class, innermost function)`: a failing
+input is attributed to a known finding only if its (class, function) is listed here. -/
+def knownCrashSites : List (String × String × String) := []
 
 def crashFindings (cls fn : String) : List String :=
   (knownCrashSites.filter (fun e => e.2.1 == cls && e.2.2 == fn)).map (·.1)
